@@ -1,12 +1,15 @@
 package main
 
 import (
+	"encoding/base64"
 	"fmt"
+	"net/url"
 	"strings"
 
 	"github.com/evanw/esbuild/internal/bundler"
 	"github.com/evanw/esbuild/internal/linker"
 	"github.com/evanw/esbuild/internal/xxhash"
+	"github.com/evanw/esbuild/pkg/api"
 	"github.com/evanw/esbuild/verifharness/gen"
 )
 
@@ -14,9 +17,17 @@ import (
 // xxhash, so the 8 digest bytes it sends are compared), bundler.HashForFileName, and the streaming
 // xxhash.Digest on arbitrary Write boundaries.
 //
-//	isohash\tiso\t<files>\t<repr>\t<tmpl>\t<pub>\t<out>\t<sm>\t<legal>   → "<digest hex> <name>" | PANIC
+//	isohash\tiso\t<files>\t<repr>\t<tmpl>\t<pub>\t<out>\t<sm>\t<legal>\t<smMode>,<legalMode>   → "<digest hex> <name>" | PANIC
+//	isohash\tfile\t<repr>\t<smMode>,<legalMode>\t<hasMap>\t<hasLegal>\t<body>\t<legalPath>\t<mapPath>\t<mapBase64> → final chunk file (hex)
 //	isohash\txxh\t<hex writes>                                            → digest hex
 //	isohash\tname\t<hex bytes>                                            → name | PANIC
+
+func isoCap5(v int) int {
+	if v > 5 {
+		return 5
+	}
+	return v
+}
 
 func isoJoin(items []string) string {
 	if len(items) == 0 {
@@ -72,13 +83,15 @@ func isoU32(r *gen.Rand) uint32 {
 func init() {
 	kernels["isohash"] = func(r *gen.Rand, e *emitter, tier string) {
 		for !e.full() {
-			switch r.Intn(12) {
+			switch r.Intn(14) {
 			case 0:
 				isoXXH(r, e)
 			case 1:
 				isoName(r, e)
 			case 2:
 				isoCollisionPair(r, e)
+			case 3:
+				isoFile(r, e)
 			default:
 				isoChunk(r, e)
 			}
@@ -322,6 +335,23 @@ func isoChunk(r *gen.Rand, e *emitter) {
 		e.stat("legal:none")
 	}
 
+	// c.options.SourceMap / c.options.LegalComments: every value of the enums (also the combinations a real
+	// build cannot reach, e.g. a map with content under SourceMapNone) and, rarely, an out-of-enum byte
+	ch.SourceMapMode = uint8(r.Intn(5))
+	ch.LegalCommentsMode = uint8(r.Intn(5))
+	if r.Chance(1, 30) {
+		ch.SourceMapMode = uint8(r.Intn(256))
+		ch.LegalCommentsMode = uint8(r.Intn(256))
+	}
+	if len(ch.SMPrefix)+len(ch.SMMappings)+len(ch.SMSuffix) > 0 {
+		e.stat(fmt.Sprintf("sourcemap-mode-written:%d", isoCap5(int(ch.SourceMapMode))))
+	} else {
+		e.stat("sourcemap-mode-not-written")
+	}
+	if len(ch.Legal) > 0 {
+		e.stat(fmt.Sprintf("legal-mode-written:%d", isoCap5(int(ch.LegalCommentsMode))))
+	}
+
 	parallel := !willPanic
 	if willPanic {
 		e.stat("panic:source-index-out-of-range")
@@ -359,8 +389,9 @@ func isoEmit(e *emitter, files []linker.VerifIsoFile, pub string, ch linker.Veri
 			out = append(out, fmt.Sprintf("%s:%d:%d", hexBytes(p.Data), p.Kind, p.Index))
 		}
 	}
-	op := fmt.Sprintf("isohash\tiso\t%s\t%s\t%s\t%s\t%s\t%s/%s/%s\t%s", isoJoin(fileItems), reprStr, isoJoin(tmplItems),
-		hexBytes([]byte(pub)), strings.Join(out, " "), hexBytes(ch.SMPrefix), hexBytes(ch.SMMappings), hexBytes(ch.SMSuffix), hexBytes(ch.Legal))
+	op := fmt.Sprintf("isohash\tiso\t%s\t%s\t%s\t%s\t%s\t%s/%s/%s\t%s\t%d,%d", isoJoin(fileItems), reprStr, isoJoin(tmplItems),
+		hexBytes([]byte(pub)), strings.Join(out, " "), hexBytes(ch.SMPrefix), hexBytes(ch.SMMappings), hexBytes(ch.SMSuffix), hexBytes(ch.Legal),
+		ch.SourceMapMode, ch.LegalCommentsMode)
 	exp := guard(func() string {
 		d := linker.VerifIsolatedHash(files, pub, ch, parallel)
 		return hexBytes(d) + " " + bundler.HashForFileName(d)
@@ -392,7 +423,7 @@ func isoCollisionPair(r *gen.Rand, e *emitter) {
 	b := linker.VerifIsoChunk{Template: tmpl, Pieces: pieces}
 	var filesA []linker.VerifIsoFile
 	pubA, pubB := "", ""
-	family := r.Intn(4)
+	family := r.Intn(6)
 	switch family {
 	case 0: // a part range with partIndexBegin = 4 against three more template parts
 		ns, path, end := word(), word(), isoU32(r)
@@ -405,10 +436,29 @@ func isoCollisionPair(r *gen.Rand, e *emitter) {
 	case 2: // public path against one more piece in front
 		pubA = word()
 		b.Pieces = append([]linker.VerifPiece{{Data: []byte(pubA), Kind: 2}}, pieces...)
-	case 3: // legal comments against a source-map suffix behind one more (empty) piece
+	case 3: // legal comments (+ their mode) against a source-map suffix (+ its mode) behind one more (empty) piece
 		a.Legal = []byte(word())
+		a.LegalCommentsMode = uint8(1 + r.Intn(4))
 		b.Pieces = append(append([]linker.VerifPiece{}, pieces...), linker.VerifPiece{})
 		b.SMSuffix = a.Legal
+		b.SourceMapMode = a.LegalCommentsMode
+	case 4: // a map with content under SourceMapNone (mode 0 reads like an empty item) against one more piece
+		pfx := "{" + word()
+		a.SMPrefix = []byte(pfx)
+		a.SourceMapMode = 0
+		b.Pieces = append(append([]linker.VerifPiece{}, pieces...), linker.VerifPiece{Data: []byte(pfx)})
+	case 5: // map + mode 4 + legal comments that are themselves an encoding, against four more pieces
+		inner := "/*" + word()
+		a.SMPrefix, a.SMMappings, a.SMSuffix = []byte("{"+word()), []byte("AAAA"), []byte("\"}")
+		a.SourceMapMode = 4
+		a.LegalCommentsMode = uint8(3 + r.Intn(2))
+		a.Legal = append(make([]byte, 12), byte(len(inner)), 0, 0, 0)
+		a.Legal = append(a.Legal, inner...)
+		b.Pieces = append(append([]linker.VerifPiece{}, pieces...),
+			linker.VerifPiece{Data: a.SMPrefix}, linker.VerifPiece{Data: a.SMMappings}, linker.VerifPiece{Data: a.SMSuffix},
+			linker.VerifPiece{Data: []byte{byte(len(a.Legal)), 0, 0, 0}})
+		b.Legal = []byte(inner)
+		b.LegalCommentsMode = a.LegalCommentsMode
 	}
 	da := isoEmit(e, filesA, pubA, a, true)
 	db := isoEmit(e, nil, pubB, b, true)
@@ -417,4 +467,142 @@ func isoCollisionPair(r *gen.Rand, e *emitter) {
 	} else {
 		e.stat(fmt.Sprintf("collision-pair-%d:DIFFERENT-digest", family))
 	}
+}
+
+// ---------------------------------------------------------------- the final chunk file, end to end
+
+var isoAPISourceMap = []api.SourceMap{api.SourceMapNone, api.SourceMapInline, api.SourceMapLinked, api.SourceMapExternal, api.SourceMapInlineAndExternal}
+
+// indexed by the config.LegalComments value (0 Inline, 1 None, 2 EndOfFile, 3 Linked, 4 External)
+var isoAPILegal = []api.LegalComments{api.LegalCommentsInline, api.LegalCommentsNone, api.LegalCommentsEndOfFile, api.LegalCommentsLinked, api.LegalCommentsExternal}
+
+type isoBuild struct {
+	main, mainPath string
+	mapFile        []byte
+	hasLegalFile   bool
+	ok             bool
+}
+
+func isoRunBuild(src string, css bool, smMode, legalMode int, entryNames, publicPath string, minify bool) (b isoBuild) {
+	loader, sourcefile := api.LoaderJS, "in put.js"
+	if css {
+		loader, sourcefile = api.LoaderCSS, "in put.css"
+	}
+	res := api.Build(api.BuildOptions{
+		Stdin:             &api.StdinOptions{Contents: src, Sourcefile: sourcefile, Loader: loader, ResolveDir: "/"},
+		Bundle:            true,
+		Outdir:            "/out",
+		AbsWorkingDir:     "/",
+		Write:             false,
+		LogLevel:          api.LogLevelSilent,
+		Sourcemap:         isoAPISourceMap[smMode],
+		LegalComments:     isoAPILegal[legalMode],
+		EntryNames:        entryNames,
+		PublicPath:        publicPath,
+		MinifyWhitespace:  minify,
+		MinifySyntax:      minify,
+		MinifyIdentifiers: minify,
+	})
+	if len(res.Errors) > 0 {
+		return
+	}
+	for _, f := range res.OutputFiles {
+		switch {
+		case strings.HasSuffix(f.Path, ".map"):
+			b.mapFile = f.Contents
+		case strings.HasSuffix(f.Path, ".LEGAL.txt"):
+			b.hasLegalFile = true
+		default:
+			b.main, b.mainPath = string(f.Contents), f.Path
+		}
+	}
+	b.ok = b.mainPath != ""
+	return
+}
+
+// isoFile: a real build through pkg/api for every combination of source-map mode, legal-comments mode,
+// JS / CSS, with / without legal comments in the source, hashed / plain names, public path. The model gets
+// the chunk body (the same build without a source map and without a link to the legal comments), the
+// strings derived from the chunk's own final path, and the finished map; it must reproduce the final file.
+func isoFile(r *gen.Rand, e *emitter) {
+	css := r.Chance(1, 3)
+	smMode, legalMode := r.Intn(5), r.Intn(5)
+	withLegal := r.Chance(2, 3)
+	minify := r.Chance(1, 3)
+	n := r.Intn(1000)
+	src := ""
+	switch {
+	case r.Chance(1, 6): // empty input: the joiner is empty, no newline is added
+	case css:
+		if withLegal {
+			src = fmt.Sprintf("/*! licence %d */\n", n)
+		}
+		src += fmt.Sprintf("a { color: rgb(%d, 0, 0) }\n", n%256)
+	default:
+		if withLegal {
+			src = []string{"/*! licence %d */\n", "//! licence %d\n", "/* @license %d */\n"}[r.Intn(3)]
+			src = fmt.Sprintf(src, n)
+		}
+		src += fmt.Sprintf("console.log(%d)\n", n)
+	}
+	entryNames := []string{"", "[name]-[hash]", "sub/[name]", "[hash]"}[r.Intn(4)]
+	publicPath := []string{"", "", "https://cdn.example/x/", "/static"}[r.Intn(4)]
+
+	full := isoRunBuild(src, css, smMode, legalMode, entryNames, publicPath, minify)
+	// the body: no source map; comments that would go to the external file are simply dropped
+	bodyLegal := legalMode
+	if legalMode == 3 || legalMode == 4 {
+		bodyLegal = 1
+	}
+	body := isoRunBuild(src, css, 0, bodyLegal, entryNames, publicPath, minify)
+	if !full.ok || !body.ok {
+		e.stat("file:build-failed")
+		return
+	}
+	// the finished map: the external file, or (inline only) the one of the same build with an external map
+	mapFile := full.mapFile
+	if smMode == 1 {
+		mapFile = isoRunBuild(src, css, 3, legalMode, entryNames, publicPath, minify).mapFile
+	}
+	rel := strings.TrimPrefix(full.mainPath, "/out/")
+	own := func(suffix string) string { // pathBetweenChunks(finalRelDir, finalRelPath+suffix) without "./"
+		if publicPath != "" {
+			pp := publicPath
+			if !strings.HasSuffix(pp, "/") {
+				pp += "/"
+			}
+			return pp + rel + suffix
+		}
+		return rel[strings.LastIndex(rel, "/")+1:] + suffix
+	}
+	reprStr := "J"
+	if css {
+		reprStr = "C"
+	}
+	hasMap, hasLegal := 0, 0
+	if smMode != 0 {
+		hasMap = 1 // esbuild generates a map (with content) exactly when the mode is not None
+	}
+	if full.hasLegalFile {
+		hasLegal = 1
+	}
+	e.stat(fmt.Sprintf("file:sourcemap-mode-%d", smMode))
+	e.stat(fmt.Sprintf("file:legal-mode-%d/external-file-%d", legalMode, hasLegal))
+	switch {
+	case len(body.main) == 0:
+		e.stat("file:body-empty")
+	case strings.HasSuffix(body.main, "\n"):
+		e.stat("file:body-ends-with-newline")
+	default:
+		e.stat("file:body-without-final-newline")
+	}
+	if css {
+		e.stat("file:css")
+	} else {
+		e.stat("file:js")
+	}
+	mapURL := (&url.URL{Path: own(".map")}).EscapedPath()
+	e.emit(fmt.Sprintf("isohash\tfile\t%s\t%d,%d\t%d\t%d\t%s\t%s\t%s\t%s", reprStr, smMode, legalMode, hasMap, hasLegal,
+		hexBytes([]byte(body.main)), hexBytes([]byte(own(".LEGAL.txt"))), hexBytes([]byte(mapURL)),
+		hexBytes([]byte(base64.StdEncoding.EncodeToString(mapFile)))), hexBytes([]byte(full.main)))
 }
